@@ -7,6 +7,7 @@ import (
 	"math/rand"
 	"os"
 	"path/filepath"
+	"strings"
 
 	"verifharness/core"
 )
@@ -48,12 +49,26 @@ func runC16(ctx *core.Ctx) {
 		ctx.Wait()
 		os.RemoveAll("/dev/shm/" + filepath.Base(ctx.Scratch)) // see c16TreeBase
 	}()
-	c16Exhaustive(ctx)
-	c16OracleExhaustive(ctx)
-	c16OracleUnderFile(ctx)
-	ctx.Res.Exhaustive = true
-	c16Random(ctx)
-	c16OracleRandom(ctx)
+	// VERIF_C16_STREAMS (development aid): comma-separated subset of corr-ex,oracle-ex,random,load,oracle
+	only := os.Getenv("VERIF_C16_STREAMS")
+	want := func(name string) bool { return only == "" || strings.Contains(","+only+",", ","+name+",") }
+	if want("corr-ex") {
+		c16Exhaustive(ctx)
+	}
+	if want("oracle-ex") {
+		c16OracleExhaustive(ctx)
+		c16OracleUnderFile(ctx)
+	}
+	ctx.Res.Exhaustive = only == ""
+	if want("random") {
+		c16RandomResolve(ctx)
+	}
+	if want("load") {
+		c16RandomLoad(ctx)
+	}
+	if want("oracle") {
+		c16OracleRandom(ctx)
+	}
 }
 
 // ---------------------------------------------------------------- correspondence, exhaustive
@@ -286,8 +301,8 @@ func c16RandArgs(r *rand.Rand, malformed, forLoad bool) c16Args {
 	return a
 }
 
-func c16Random(ctx *core.Ctx) {
-	n := ctx.Pick(40000, 1500000)
+func c16RandomResolve(ctx *core.Ctx) {
+	n := ctx.Pick(40000, 250000)
 	for i := 0; i < n; i++ {
 		malformed := i%5 == 4
 		a := c16RandArgs(ctx.Rng, malformed, false)
@@ -298,7 +313,10 @@ func c16Random(ctx *core.Ctx) {
 		}
 		ctx.Add("c16.resolve", a)
 	}
-	n = ctx.Pick(6000, 250000)
+}
+
+func c16RandomLoad(ctx *core.Ctx) {
+	n := ctx.Pick(6000, 40000)
 	for i := 0; i < n; i++ {
 		malformed := i%5 == 4
 		a := c16RandArgs(ctx.Rng, malformed, true)
@@ -470,7 +488,7 @@ func c16OracleUnderFile(ctx *core.Ctx) {
 
 func c16OracleRandom(ctx *core.Ctx) {
 	r := ctx.Rng
-	n := ctx.Pick(5000, 300000)
+	n := ctx.Pick(5000, 60000)
 	for i := 0; i < n; i++ {
 		nk := 3 + r.Intn(2)
 		keys := []string{"K1", "K2", "K3", "K4"}[:nk]
